@@ -2,6 +2,15 @@ Require Import XRead.
 From Coq Require Import List Arith Bool Lia.
 Import ListNotations.
 
+Section AnyMode.
+Variable wl : bool.
+Local Notation scan := (XRead.scan wl).
+Local Notation refill := (XRead.refill wl).
+Local Notation next := (XRead.next wl).
+Local Notation flat_next := (XRead.flat_next wl).
+Local Notation read_all := (XRead.read_all wl).
+Local Notation flat_all := (XRead.flat_all wl).
+
 Lemma scan_app e acc ia eb b1 b2 :
   scan e acc ia eb (b1 ++ b2) = match scan e acc ia eb b1 with
                                 | Done t h rest => Done t h (rest ++ b2)
@@ -11,7 +20,7 @@ Proof.
   revert e acc ia eb. induction b1 as [|c b1 IH]; intros e acc ia eb; [reflexivity|].
   cbn [app scan]. destruct e as [| |q].
   - destruct (is_quote c); [apply IH|]. destruct (c =? 92); [apply IH|].
-    destruct (is_ws c); [|apply IH]. destruct ia; [reflexivity|apply IH].
+    destruct (is_ws c && negb (wl && ia && negb (c =? 10))); [|apply IH]. destruct ia; [reflexivity|apply IH].
   - apply IH.
   - destruct (c =? q); apply IH.
 Qed.
@@ -61,3 +70,4 @@ Proof.
   destruct (next pending chunks) as [[[[[t h] p] cs]|]|] eqn:E; cbn [proj]; try reflexivity.
   rewrite IH; reflexivity.
 Qed.
+End AnyMode.
